@@ -635,6 +635,9 @@ def check_heat(case):
     for idx in np.ndindex(*z.shape):
         z[idx] = 1.0 + idx[1] + 10 * idx[0] + 100 * idx[2] + 1000 * idx[3] \
             + 0.5 * idx[4]
+    # (one cell holds the same value in every panel, whatever else the
+    # panel holds: the colour scale is one for the whole figure)
+    z[ny - 1, nx - 1] = 2.5
     if case["nan"] == "point":
         z[0, 1] = np.nan
     xs_, ys_ = [1.0, 2.0, 3.0][:nx], [10.0, 20.0, 30.0][:ny]
